@@ -8,13 +8,15 @@
      C03_frame_any_position : forall d b b', write_buf_tcp wfixed d b = Ok (ARES_SUCCESS, b') ->
          exists m, w_live b' = w_live b ++ be16 (length m) ++ m /\ dns_write d = Ok m
      C03_query_builders : create_query ... = Ok bs -> parse bs = the one-question record
+   (C03_roundtrip is claimed for records with exactly ONE question: ares_dns_parse() refuses every
+   other QDCOUNT, see findings/C03.json roundtrip-question-count)
    They are decided on every run by the implementation-only oracle (write -> parse -> record_eqb ->
    rewrite, TCP frames at positions after 0..3 earlier frames and partial sends, legacy builders)
    and by the correspondence of the extracted writer model with the library.  Proved below: the
    statements do NOT hold for the pinned tree (five witnesses, each a defect with a patch or a
    finding). *)
-From CAres.Wire Require Import Cursor Name Record Parse Escape Escape_proofs RefDecode Name_ref Write Roundtrip Write_proofs Write_name Write_host Write_name2 Write_pos Write_boundary.
-From CAres.Gen Require Import Consts.
+From CAres.Wire Require Import Cursor Name Record Parse Escape Escape_proofs RefDecode Name_ref Write Roundtrip Write_proofs Write_name Write_host Write_name2 Write_pos Write_boundary Write_query Write_patch Write_query2 Write_rr Write_msg.
+From CAres.Gen Require Import Consts Tables.
 Local Open Scope Z_scope.
 
 (* NAME ROUND TRIP, uncompressed path (both variants): for every sequence of valid labels (1..63
@@ -143,3 +145,95 @@ Theorem C03_roundtrip_refuted_txt_split :
   exists d bs d', dns_write d = Ok bs /\ dns_parse bs 0 = Ok d' /\ record_eqb d d' = false.
 Proof. exact abin_split_refuted. Qed.
 Print Assumptions C03_roundtrip_refuted_txt_split.
+
+(* LEGACY QUERY BUILDERS, width of the question TYPE.  Gen/Tables.v records by probing the working
+   tree whether ares_dns_rec_type_isvalid() accepts question types that do not fit the 16 bit TYPE
+   field ([rec_type_query_outside]).  On a tree that does (the pinned tree and every tree without
+   fixes/C03-query-type-16bit.patch) the builders violate C03_query_builders: ares_create_query(
+   "a.ex", C_IN, 65537, ...) succeeds and what is on the wire - and parses back - is a question for
+   type 1.  (The statement is vacuous on a tree with the fix.) *)
+Theorem C03_query_builders_refuted_type_truncation :
+  rec_type_query_outside = true ->
+  exists bs d', create_query wfixed ex_qname 1 65537 7 1 0 = Ok bs /\ dns_parse bs 0 = Ok d' /\
+                d_qd d' = [mkQ ex_qname 1 1].
+Proof. exact query_type_truncated. Qed.
+Print Assumptions C03_query_builders_refuted_type_truncation.
+
+(* ... and on a tree that refuses them, every record ares_dns_record_create_query() returns carries
+   a question type that the wire format can express.
+   _partial: the rest of C03_query_builders (parse (write (the record)) = the record) is not covered *)
+Theorem C03_query_type_fits_partial : forall name dnsclass type id flags max_udp d,
+  rec_type_query_outside = false ->
+  record_create_query name dnsclass type id flags max_udp = Ok d ->
+  Forall (fun q => 0 <= q_type q < 65536) (d_qd d).
+Proof. exact query_type_fits. Qed.
+Print Assumptions C03_query_type_fits_partial.
+
+(* LEGACY QUERY BUILDERS (ares_create_query / ares_mkquery; fixed variant): whatever they return
+   parses back (ares_dns_parse, flags 0) to exactly the record ares_dns_record_create_query() built -
+   id, RD flag, opcode QUERY, the question (name, type, class), no answers, and the OPT RR with the
+   requested UDP size when EDNS was asked for - for every hostname (labels of 1..63 hostname octets,
+   at most 255 octets on the wire), every type 0..65535, every class, id, rd and max_udp_size the
+   builder accepts.  Equality is RefDecode.norm_parsed (NULL = empty).
+   Proof: the octets are computed through the writer model (header, name by C03_name_roundtrip's
+   lemma, the OPT RR through its two back-patches - Write_patch.v), decoded by the RFC reference
+   decoder, shown to be in the supported subset, and C04_complete + C04_sound transfer that to the
+   parser.
+   _partial: names in canonical presentation form (escape_name of the labels); text with a trailing
+   dot or \DDD escapes is not covered *)
+Theorem C03_query_builders_partial : forall labels cls type id rd udp bs,
+  Forall label_ok labels -> Forall host_label labels -> wire_len labels <= 256 -> slen (escape_name labels) < 512 ->
+  0 <= type < 65536 ->
+  create_query wfixed (escape_name labels) cls type id rd udp = Ok bs ->
+  exists d d',
+    record_create_query (escape_name labels) cls type (Z.land id 65535) (if rd =? 0 then 0 else ARES_FLAG_RD) (udp mod 2 ^ 64) = Ok d /\
+    dns_parse bs 0 = Ok d' /\ norm_parsed d' = norm_parsed d.
+Proof. exact query_builders. Qed.
+Print Assumptions C03_query_builders_partial.
+
+(* THE BACK-PATCHING IDIOM of the writer (RDLENGTH, the OPT / RAW_RR overwrites, the TCP length):
+   ares_buf_set_length() back over [x], ares_buf_append() of [y] not longer than [x],
+   ares_buf_set_length() forward to the old end.  For every well-formed buffer holding pre ++ x
+   (and [shadow] in memory behind it): both ares_buf_set_length() calls succeed - the second one only
+   re-exposes octets the buffer still owns, never uninitialised memory - and the buffer then holds
+   pre ++ y ++ (what was behind the first |y| octets of x); nothing before is touched. *)
+Theorem C03_backpatch_exact : forall b pre x shadow y,
+  holds b (pre ++ x) shadow -> y <> [] -> (length y <= length x)%nat ->
+  exists b1 b2,
+    wb_set_length b (Z.of_nat (length pre)) = Ok (ARES_SUCCESS, b1) /\
+    wb_set_length (wb_append b1 y) (wb_len b) = Ok (ARES_SUCCESS, b2) /\
+    holds (wb_append b1 y) (pre ++ y) (skipn (length y) x ++ shadow) /\
+    holds b2 (pre ++ y ++ skipn (length y) x) shadow.
+Proof. exact holds_patch. Qed.
+Print Assumptions C03_backpatch_exact.
+
+(* WRITE THEN PARSE IS THE IDENTITY (fixed variant), for ALL well-formed records: every header
+   field, the question, and every RR of every section - all 18 decoded types, the OPT pseudo-RR with
+   its options and the extended RCODE bits, and opaque RRs of undecoded types - with name compression
+   across the whole message, the RDLENGTH / OPT / RAW_RR back-patches and the 64k limit.
+   [msg_wf] (Wire/Write_msg.v) is what "well formed" means:
+     id 16 bit, flag bits among the seven the library knows, opcode and RCODE ones it knows, an
+     RCODE above 15 only with an OPT RR in the additional section, at most one OPT RR;
+     exactly ONE question (see findings/C03.json roundtrip-question-count), type 0..65535;
+     owner and question names hostnames in canonical presentation form, RDATA names any octets in
+     canonical form (labels 1..63 octets, 255 on the wire, text shorter than 512 characters);
+     every RR has the keys of its type (the API guarantees it), values in range (u8/u16/u32, 4 / 16
+     address octets), class one the library accepts, TTL 32 bit;
+     <character-string>s at most 255 octets (TXT too: findings roundtrip-fields-txt-over-255),
+     printable where the parser insists and a non-empty CAA tag (findings roundtrip-text-unparseable),
+     non-empty "rest of RDATA" fields, at least one TXT string, option values at most 65535 octets;
+     an opaque RR (RAW_RR) carries a type without a decoder (not 41, not 255).
+   Equality is RefDecode.norm_parsed (NULL = empty, STR = NAME text).
+   Proof: the writer model is shown to append, per field kind, octets that do not depend on what
+   precedes them (Write_enc.v: the name writer as a function of position and offset list;
+   Write_fields*.v: the RDATA writers follow the layout table), so every RR decodes - by the RFC
+   reference decoder - in the FINAL message, after its RDLENGTH slot has been back-patched
+   (Write_rr.v); sections, question and header are assembled (Write_msg.v), the message is shown to be
+   in the supported subset, and C04_complete + C04_sound transfer the result to the parser.
+   _partial: non-canonical name text (trailing dot, \DDD for printable octets) and the statement that
+   re-serialising the parsed record yields the same octets are not covered. *)
+Theorem C03_roundtrip_partial : forall d bs,
+  msg_wf d -> dns_write d = Ok bs ->
+  Z.of_nat (length bs) <= 65535 /\ exists d', dns_parse bs 0 = Ok d' /\ norm_parsed d' = norm_parsed d.
+Proof. exact roundtrip_fixed. Qed.
+Print Assumptions C03_roundtrip_partial.
